@@ -31,6 +31,7 @@ type Engine struct {
 	implCache map[string][]*ssa.Function
 	repoDir string
 	namedTypes []types.Type
+	exts map[*types.Var]*extInfo
 	ctCache map[*ssa.Function]*Contract
 	lemmaProved map[string]bool
 }
@@ -107,6 +108,7 @@ func LoadEngine(repoDir string, patterns []string, specDir string) (*Engine, err
 			}
 		}
 	}
+	e.loadExtensions()
 	for _, sf := range e.cs.Specs {
 		if sf.Ghost {
 			T, err := e.resolveTypeText(sf.Ret, sf.Pkg, e.cs.Imports[sf.File])
@@ -536,6 +538,19 @@ func (e *Engine) instrMods(fn *ssa.Function, in ssa.Instruction, into map[string
 		addMod(into, "C:$iterpos", true)
 	case ssa.CallInstruction:
 		com := x.Common()
+		if f := com.StaticCallee(); f != nil && !com.IsInvoke() {
+			switch f.String() {
+			case "google.golang.org/protobuf/proto.SetExtension", "google.golang.org/protobuf/proto.ClearExtension":
+				if info := e.extOfArg(com.Args[1]); info != nil {
+					addMod(into, extRegion(info), true)
+				} else {
+					addMod(into, "*", true)
+				}
+				return
+			case "google.golang.org/protobuf/proto.GetExtension", "google.golang.org/protobuf/proto.HasExtension":
+				return
+			}
+		}
 		if b, ok := com.Value.(*ssa.Builtin); ok {
 			switch b.Name() {
 			case "append", "copy":
@@ -556,6 +571,19 @@ func (e *Engine) instrMods(fn *ssa.Function, in ssa.Instruction, into map[string
 // comMods: mod set of a call as seen from inside fn (closure arguments resolved when static).
 func (e *Engine) comMods(fn *ssa.Function, com *ssa.CallCommon) map[string]bool {
 	out := map[string]bool{}
+	if f := com.StaticCallee(); f != nil && !com.IsInvoke() {
+		switch f.String() {
+		case "google.golang.org/protobuf/proto.SetExtension", "google.golang.org/protobuf/proto.ClearExtension":
+			if info := e.extOfArg(com.Args[1]); info != nil {
+				addMod(out, extRegion(info), true)
+			} else {
+				addMod(out, "*", true)
+			}
+			return out
+		case "google.golang.org/protobuf/proto.GetExtension", "google.golang.org/protobuf/proto.HasExtension":
+			return out
+		}
+	}
 	var ct *Contract
 	var callee *ssa.Function
 	if com.IsInvoke() {
